@@ -91,25 +91,54 @@ fn png_rows(ctx: &Ctx, data: &[u8], columns: usize) -> Vec<u8> {
 }
 
 fn gen_cmap(ctx: &Ctx) -> Vec<u8> {
-    let mut s = String::from("/CIDInit /ProcSet findresource begin\n12 dict begin\nbegincmap\n/CIDSystemInfo << /Registry (Adobe) /Ordering (UCS) /Supplement 0 >> def\n/CMapName /Adobe-Identity-UCS def\n/CMapType 2 def\n1 begincodespacerange\n<0000> <FFFF>\nendcodespacerange\n");
+    // code width: two bytes mostly; one, three and four bytes are legal too
+    let w = [2usize, 2, 2, 1, 3, 4][ctx.draw(W, 6, "cmap-code-width") as usize];
+    let hex = |v: u64| format!("{:0width$X}", v & ((1u64 << (8 * w)) - 1), width = 2 * w);
+    let top = (1u64 << (8 * w)) - 1;
+    let mut s = format!(
+        "/CIDInit /ProcSet findresource begin\n12 dict begin\nbegincmap\n/CIDSystemInfo << /Registry (Adobe) /Ordering (UCS) /Supplement 0 >> def\n/CMapName /Adobe-Identity-UCS def\n/CMapType 2 def\n1 begincodespacerange\n<{}> <{}>\nendcodespacerange\n",
+        hex(0),
+        hex(top)
+    );
     let n = 1 + ctx.draw(W, 6, "cmap-bfchar-n");
     s.push_str(&format!("{n} beginbfchar\n"));
     for i in 0..n {
-        s.push_str(&format!("<{:04X}> <{:04X}>\n", 1 + i * 3, 0x41 + ctx.draw(W, 500, "cmap-target")));
+        s.push_str(&format!("<{}> <{:04X}>\n", hex(1 + i * 3), 0x41 + ctx.draw(W, 500, "cmap-target")));
     }
     s.push_str("endbfchar\n");
     let m = 1 + ctx.draw(W, 4, "cmap-bfrange-n");
     s.push_str(&format!("{m} beginbfrange\n"));
     for i in 0..m {
-        let lo = 0x100 + i * 0x40;
-        if ctx.chance(W, 1, 3, "cmap-array-range") {
-            s.push_str(&format!("<{:04X}> <{:04X}> [<0061> <0062> <D83DDE00>]\n", lo, lo + 2));
-        } else {
-            s.push_str(&format!("<{:04X}> <{:04X}> <{:04X}>\n", lo, lo + ctx.draw(W, 32, "cmap-range-len"), 0x3B1 + i));
+        let lo = if w == 1 { 0x20 + i * 0x18 } else { 0x100 + i * 0x40 };
+        match ctx.draw(W, 4, "cmap-range-form") {
+            0 => s.push_str(&format!("<{}> <{}> [<0061> <0062> <D83DDE00>]\n", hex(lo), hex(lo + 2))),
+            // one target of several UTF-16 units (a surrogate pair, a ligature) for the whole range
+            1 => s.push_str(&format!(
+                "<{}> <{}> <{}>\n",
+                hex(lo),
+                hex(lo + ctx.draw(W, 20, "cmap-range-len")),
+                ["D83DDE00", "00660069", "0041030A0301"][ctx.draw(W, 3, "cmap-multi-unit") as usize]
+            )),
+            _ => s.push_str(&format!("<{}> <{}> <{:04X}>\n", hex(lo), hex(lo + ctx.draw(W, 20, "cmap-range-len")), 0x3B1 + i)),
         }
     }
     s.push_str("endbfrange\nendcmap\nCMapName currentdict /CMap defineresource pop\nend\nend\n");
     s.into_bytes()
+}
+
+/// The hexadecimal tokens of a CMap (codes, range ends, targets): where a digit edit changes a count.
+fn cmap_hot(cm: &[u8]) -> Vec<(usize, usize)> {
+    let mut out = Vec::new();
+    let mut i = 0;
+    while i < cm.len() {
+        if cm[i] == b'<' && cm.get(i + 1) != Some(&b'<') {
+            let j = cm[i..].iter().position(|&c| c == b'>').map_or(cm.len(), |p| i + p);
+            out.push((i + 1, j));
+            i = j;
+        }
+        i += 1;
+    }
+    out
 }
 
 /// A page-tree document enriched with everything the byte-level entry points decode.
@@ -238,7 +267,72 @@ fn scan_hot_keys(img: &[u8]) -> Vec<(usize, usize)> {
 }
 
 fn base_image(ctx: &Ctx) -> Result<(Vec<u8>, Option<Vec<u8>>, Vec<(usize, usize)>, &'static str), Violation> {
-    match ctx.draw(W, 7, "c04-base") {
+    match ctx.draw(W, 8, "c04-base") {
+        7 => {
+            // a document encrypted for the empty user password and saved by lopdf: the loader decrypts
+            // it on its own, so damaged ciphertext (padding, IVs, the encryption dictionary) reaches
+            // the decryption code through `load_mem`
+            use crate::scen_d::{mk, Kind};
+            use lopdf::{EncryptionState, EncryptionVersion, Permissions};
+            use std::collections::BTreeMap;
+            let mut m = rich_doc(ctx);
+            let id0: Vec<u8> = (0..16).map(|_| ctx.draw(W, 256, "id") as u8).collect();
+            m.trailer.push((nm("ID"), MObj::Array(vec![MObj::Str(id0.clone(), true), MObj::Str(id0, true)])));
+            let mut d = sim::to_doc(&m);
+            let perms = Permissions::all();
+            let fek: Vec<u8> = (0..32).map(|_| ctx.draw(W, 256, "fek") as u8).collect();
+            let which = ctx.draw(W, 5, "enc-version");
+            let state = {
+                let for_state = d.clone();
+                let cf = |k: Kind| BTreeMap::from([(b"StdCF".to_vec(), mk(k))]);
+                let v = match which {
+                    0 => EncryptionVersion::V1 { document: &for_state, owner_password: "owner", user_password: "", permissions: perms },
+                    1 => EncryptionVersion::V2 { document: &for_state, owner_password: "owner", user_password: "", key_length: 128, permissions: perms },
+                    2 | 3 => EncryptionVersion::V4 {
+                        document: &for_state,
+                        encrypt_metadata: true,
+                        crypt_filters: cf(if which == 2 { Kind::Aes128 } else { Kind::Rc4 }),
+                        stream_filter: b"StdCF".to_vec(),
+                        string_filter: b"StdCF".to_vec(),
+                        owner_password: "owner",
+                        user_password: "",
+                        permissions: perms,
+                    },
+                    _ => EncryptionVersion::V5 {
+                        encrypt_metadata: true,
+                        crypt_filters: cf(Kind::Aes256),
+                        file_encryption_key: &fek,
+                        stream_filter: b"StdCF".to_vec(),
+                        string_filter: b"StdCF".to_vec(),
+                        owner_password: "owner",
+                        user_password: "",
+                        permissions: perms,
+                    },
+                };
+                guarded("EncryptionState::try_from", || EncryptionState::try_from(v))?
+            };
+            let mut img = Vec::new();
+            if let Ok(state) = state {
+                if guarded("Document::encrypt", || d.encrypt(&state))?.is_ok() {
+                    ctx.count("base-encrypted");
+                }
+            }
+            guarded("save_to", || d.save_to(&mut img))?.map_err(|e| Violation::new("healthy-save-failed", e.to_string()))?;
+            let mut hot = scan_hot(&img);
+            // the last two cipher blocks of every stream body (padding lives there) and the key material
+            let mut i = 0;
+            while let Some(p) = img[i..].windows(10).position(|w| w == b"\nendstream") {
+                let at = i + p;
+                hot.push((at.saturating_sub(32), at));
+                i = at + 10;
+            }
+            for k in [&b"/O"[..], b"/U", b"/OE", b"/UE", b"/Perms", b"/V ", b"/R ", b"/Length", b"/CFM", b"/P "] {
+                if let Some(p) = img.windows(k.len()).position(|w| w == k) {
+                    hot.push((p, (p + k.len() + 40).min(img.len())));
+                }
+            }
+            Ok((img, None, hot, "lopdf-encrypted document (empty user password)"))
+        }
         6 => {
             // legal deep nesting (PDF sets no nesting limit); block duplication deepens it further
             let depth = 200 + ctx.draw(W, 1300, "nest-depth") as usize;
@@ -386,7 +480,7 @@ fn on_small_stack<T: Send>(ctx: &Ctx, f: impl FnOnce() -> T + Send) -> T {
 }
 
 pub fn c04_faulted(ctx: &Ctx, out: &mut RunOut) -> Result<(), Violation> {
-    for k in ["fault-truncate", "fault-bit-flip", "fault-byte-burst", "fault-zero-block", "fault-stale-block", "fault-misdirected-block", "fault-duplicated-block", "fault-splice", "fault-digit-edit", "fault-ref-retarget", "entry-load-mem", "entry-load-from-faulty-source", "entry-incremental-load", "base-deep-nesting", "faulted-image-loaded-ok", "faulted-image-rejected"] {
+    for k in ["fault-truncate", "fault-bit-flip", "fault-byte-burst", "fault-zero-block", "fault-stale-block", "fault-misdirected-block", "fault-duplicated-block", "fault-splice", "fault-digit-edit", "fault-ref-retarget", "fault-cipher-pad-edit", "entry-load-mem", "entry-load-from-faulty-source", "entry-incremental-load", "base-deep-nesting", "base-encrypted", "faulted-image-loaded-ok", "faulted-image-rejected"] {
         ctx.count_n(k, 0); // registered so that a probe that never fires shows up as zero in the evidence
     }
     let (base, older, hot, what) = base_image(ctx)?;
@@ -399,6 +493,22 @@ pub fn c04_faulted(ctx: &Ctx, out: &mut RunOut) -> Result<(), Violation> {
         let n_faults = 1 + ctx.draw(F, 4, "n-faults");
         let mut kinds: Vec<&'static str> = Vec::new();
         for _ in 0..n_faults {
+            // encrypted images: a quarter of the faults is a byte error in the last bytes of the cipher
+            // block before the final one of some stream, i.e. exactly where CBC turns it into a
+            // change of the PKCS#5 padding bytes of the plaintext (pad length 0, too long, inconsistent)
+            if what.starts_with("lopdf-encrypted") && ctx.chance(F, 1, 4, "cipher-pad-edit") {
+                let tails: Vec<usize> = (0..img.len().saturating_sub(10)).filter(|&i| &img[i..i + 10] == b"\nendstream").collect();
+                if !tails.is_empty() {
+                    let at = tails[ctx.draw(F, tails.len() as u64, "pad-edit-stream") as usize];
+                    if at >= 17 + 1 {
+                        let pos = at - 17 - ctx.draw(F, 2, "pad-edit-back") as usize;
+                        img[pos] ^= 1 + ctx.draw(F, 32, "pad-edit-xor") as u8;
+                        ctx.count("fault-cipher-pad-edit");
+                        kinds.push("cipher-pad-edit");
+                        continue;
+                    }
+                }
+            }
             let k = simcore::disk::apply_fault(ctx, &mut img, older.as_deref(), &hot);
             ctx.count(match k {
                 "truncate" => "fault-truncate",
@@ -473,6 +583,14 @@ pub fn c04_faulted(ctx: &Ctx, out: &mut RunOut) -> Result<(), Violation> {
         if let Some(d) = &loaded {
             ctx.count("faulted-image-loaded-ok");
             guarded("decoders on the loaded document", || on_small_stack(ctx, || exercise_decoders(d)))?;
+            // a damaged encrypted file the loader could not open on its own: the explicit calls must return too
+            if d.is_encrypted() {
+                ctx.count("decrypt-on-damaged-encrypted-image");
+                for pw in ["", "owner"] {
+                    let mut x = d.clone();
+                    guarded("Document::decrypt on a damaged file", || on_small_stack(ctx, || x.decrypt(pw).is_ok()))?;
+                }
+            }
             // the C08 clause on the same image: one more schedule and the sequential build
             if entry <= 1 {
                 let a = sim::full_digest(d);
@@ -512,8 +630,14 @@ pub fn c04_faulted(ctx: &Ctx, out: &mut RunOut) -> Result<(), Violation> {
         ctx.count("entry-content-decode");
         guarded("Content::decode", || on_small_stack(ctx, || lopdf::content::Content::decode(&c).map(|_| ())))?.ok();
         let mut cm = gen_cmap(ctx);
-        simcore::disk::apply_fault(ctx, &mut cm, None, &[]);
+        let hot = cmap_hot(&cm);
+        simcore::disk::apply_fault(ctx, &mut cm, None, &hot);
+        if ctx.chance(F, 1, 3, "cmap-second-fault") {
+            simcore::disk::apply_fault(ctx, &mut cm, None, &hot);
+        }
         ctx.count("entry-cmap");
+        let (cm_len, before) = (cm.len(), crate::alloc::snapshot());
+        crate::alloc::reset_peak();
         let font = lopdf::dictionary! { "Type" => "Font", "Subtype" => "Type0", "Encoding" => "Identity-H", "ToUnicode" => lopdf::Object::Reference((2, 0)) };
         let mut d = lopdf::Document::with_version("1.5");
         d.objects.insert((2, 0), lopdf::Object::Stream(lopdf::Stream::new(lopdf::Dictionary::new(), cm)));
@@ -524,6 +648,15 @@ pub fn c04_faulted(ctx: &Ctx, out: &mut RunOut) -> Result<(), Violation> {
                 }
             })
         })?;
+        // the memory clause for this entry point too: a few hundred bytes of CMap must not cost megabytes
+        let after = crate::alloc::snapshot();
+        let budget: usize = (1 << 20) + 1024 * cm_len;
+        if after.max_request > budget {
+            return Err(Violation::new("allocation-unrelated-to-input", format!("ToUnicode CMap of {cm_len} bytes: single allocation request of {} bytes", after.max_request)));
+        }
+        if after.peak.saturating_sub(before.live) > 2 * budget {
+            return Err(Violation::new("memory-unrelated-to-input", format!("ToUnicode CMap of {cm_len} bytes: peak heap {} bytes", after.peak - before.live)));
+        }
     }
     out.case_hash = h;
     out.nontrivial = !kinds_seen.is_empty();
